@@ -1,14 +1,36 @@
 mod c31;
-mod c32;
+mod model;
+mod plan;
+mod worker;
 
 fn main() {
     let args: Vec<String> = std::env::args().skip(1).collect();
     let id = args.first().cloned().unwrap_or_default();
+    if id == "--worker" {
+        // child process of a C31 case (own XDG_CACHE_HOME)
+        let dir = args.get(1).cloned().unwrap_or_default();
+        std::process::exit(worker::main(&dir));
+    }
+    if id == "--c31-plan" {
+        // development aid: run one plan file, keep the scratch directory
+        let text = std::fs::read_to_string(args.get(1).expect("plan file")).expect("read plan");
+        let v: serde_json::Value = serde_json::from_str(&text).expect("json");
+        let p = v.get("input").and_then(|i| i.get("plan")).cloned().unwrap_or(v);
+        let plan: plan::Plan = serde_json::from_value(p).expect("plan");
+        println!("{}", plan.describe());
+        match c31::run_plan(&plan, true) {
+            Ok((s, log)) => {
+                println!("scratch kept at {}", s.path.display());
+                println!("{}", serde_json::to_string_pretty(&log).unwrap());
+            }
+            Err(e) => println!("error: {e}"),
+        }
+        return;
+    }
     vcore::quiet_panics();
     let ctx = vcore::Ctx::new(&id, &args[1.min(args.len())..]);
     match id.as_str() {
         "C31" => c31::run(&ctx),
-        "C32" => c32::run(&ctx),
         _ => {
             eprintln!("unknown property id {id:?}");
             std::process::exit(2);
